@@ -949,3 +949,82 @@ def no_dead_duplicate_dispatch(ctx: Ctx, rule: str, modules: Iterable[str], why:
                 rep.bad(rule, f.qname, desc, f.loc(dup[1]), [f"{f.loc(dup[1])}: `if {unparse(dup[1].test, 60)}` repeats the test at {f.loc(dup[0])}, whose branch always leaves: this branch is dead", why],
                         stmt_key(dup[1]), what=f"a kind of object is no longer handled by the dispatch in {f.name} (a test is duplicated)")
     return n
+
+
+def replace_result_used(ctx: Ctx, rule: str) -> int:
+    """`record._replace(..)` (NamedTuple) returns a NEW record: a statement that calls it and drops the result changes nothing.  Every `_replace` call of the package is
+    the value of something (assigned, returned, passed)."""
+    rep = ctx.report
+    prog = ctx.prog
+    n = 0
+    for f in prog.funcs.values():
+        if not f.module.name.startswith("dds") or f.module.name.startswith("dds_tests"):
+            continue
+        for st in f.own_nodes():
+            for c in ([st.value] if isinstance(st, ast.Expr) and isinstance(st.value, ast.Call) else []):
+                if isinstance(c.func, ast.Attribute) and c.func.attr == "_replace":
+                    n += 1
+                    rep.bad(rule, f.qname, f"the record built by `{unparse(c, 50)}` is used", f.loc(st), [f"{f.loc(st)}: the call is a statement of its own: the new record is dropped, "
+                            f"`{unparse(c.func.value, 30)}` keeps its fields", "a path produced by `dds.keep(p, f)` is not recorded in the interactions of the first pass: a load of p later in the same "
+                            "evaluation is taken for an external path (refused on a fresh store, served the previous content otherwise)"], stmt_key(st),
+                            what="the result of a `_replace` is discarded: the field it sets keeps its old value")
+        for c in f.own_nodes():
+            if isinstance(c, ast.Call) and isinstance(c.func, ast.Attribute) and c.func.attr == "_replace":
+                par = f.module.parent.get(c)
+                if not isinstance(par, ast.Expr):
+                    n += 1
+                    rep.ok(rule, f.qname, f"the record built by `{unparse(c, 50)}` is used", f.loc(c))
+    return n
+
+
+def public_aliases_call(ctx: Ctx, rule: str) -> int:
+    """A public function of the package front (`dds/__init__.py`) that hands its job to an internal function CALLS it: `return _accept_module` (the function object, no call)
+    type-checks as a value, warns as documented, and does nothing."""
+    rep = ctx.report
+    prog = ctx.prog
+    n = 0
+    for f in prog.funcs.values():
+        if f.module.name != "dds" or f.parent is not None:
+            continue
+        for r in f.own_nodes():
+            if not (isinstance(r, ast.Return) and r.value is not None):
+                continue
+            v = r.value
+            if isinstance(v, ast.Call):
+                fs, _ = prog.callees(f, v, ctx._types)
+                if any(g.module.name.startswith("dds") for g in fs):
+                    n += 1
+                    rep.ok(rule, f.qname, f"{f.name} calls the internal function it stands for", f.loc(r))
+            elif isinstance(v, (ast.Name, ast.Attribute)):
+                d = prog.dotted(f, v) or ""
+                g = prog.funcs.get(d)
+                if g is not None and g.module.name.startswith("dds") and g.parent is None:
+                    n += 1
+                    rep.bad(rule, f.qname, f"{f.name} calls the internal function it stands for", f.loc(r), [f"{f.loc(r)}: `{unparse(r, 50)}` returns the function `{d}` itself: it is never called",
+                            "dds.whitelist_module('pkg') warns and returns: the package is not accepted, the edits of its functions and variables change no signature and stale results are served"],
+                            stmt_key(r), what=f"the public function {f.name} returns an internal function instead of calling it")
+    return n
+
+
+def enum_listing_in_declaration_order(ctx: Ctx, rule: str, cls_q: str, why: str) -> int:
+    """A method of an enumeration that lists its members (`all_phases`) lists every member once, in the order of their declaration - the documented order, which the
+    parser of user-given lists compares positions with."""
+    rep = ctx.report
+    k = ctx.prog.cls(cls_q)
+    if k is None:
+        raise AnchorError(f"{cls_q} not found")
+    members = [st.targets[0].id for st in k.node.body if isinstance(st, ast.Assign) and len(st.targets) == 1 and isinstance(st.targets[0], ast.Name) and isinstance(st.value, ast.Constant)]
+    n = 0
+    for m in k.methods.values():
+        for r in m.own_nodes():
+            if isinstance(r, ast.Return) and isinstance(r.value, (ast.List, ast.Tuple)) and r.value.elts and all(
+                    isinstance(e, ast.Attribute) and isinstance(e.value, ast.Name) and e.value.id in (k.name, "cls") for e in r.value.elts):
+                n += 1
+                got = [e.attr for e in r.value.elts]  # type: ignore
+                desc = f"{k.name}.{m.name} lists the members in their declaration order"
+                if got == members:
+                    rep.ok(rule, m.qname, desc, m.loc(r))
+                else:
+                    rep.bad(rule, m.qname, desc, m.loc(r), [f"{m.loc(r)}: listed {got}", f"declared {members}", why], "enum-order", what=f"{k.name}.{m.name} lists the stages in another order than they run")
+    return n
+
